@@ -169,13 +169,15 @@ def optStep (st : OptSt) (ws : List String) : OptSt × String :=
         (st, match entry st.m pbs isMax obj with
           | .fast s => s!"fast {optShowSol s}"
           | .search => "search"
-          | .panic => "panic")
+          | .panic => "panic"
+          | .invalid => "invalid")
       else (st, "bad-op")
     | _, _, _ => (st, "bad-op")
   | ["op.rootlp", d, obj] =>
     match (match d with | "max" => some true | "min" => some false | _ => none), obj.toNat? with
     | some isMax, some obj =>
       if obj < st.m.vars.length then
+        if !st.m.vars.all validVar then (st, "invalid") else
         let rows := lpRows st.m
         let idx := objIndex rows obj
         let eligible := rootLpEligible st.m obj
